@@ -44,11 +44,22 @@ def cases(tier, rng):
         for t in (["PULL", "ROUTER", "PUB"] if tier == "quick" else netgen.TYPES9):
             out.append(directed(t, tr, n))
             n += 1
+    # a peer that connects and then stalls in the middle of its handshake must not stop the endpoint from accepting
+    # further connections, nor `unbind` from returning (its own connection is none of the bind set's business)
+    for tr in trs:
+        for off in (0, 11, 64, 70):
+            peer = netgen.PEER["PULL"]
+            ops = ["sock 1 PULL", f"bind 1 {tr}", f"bind 1 {tr}", "rawconn 9 ep#0", f"rawhs 9 {peer} {off}", "rawwait 9 greeting",
+                   f"probe ep#0 {peer}", "rawconn 1 ep#0", f"rawhs 1 {peer}", "rawwait 1 hs", "rawmsg 1 6869", "recv 1",
+                   "unbind 1 ep#0", "binds 1", f"probe ep#0 {peer}", f"probe ep#1 {peer}", "rawmsg 1 6f6b", "recv 1",
+                   "unbind 1 ep#1", "binds 1", f"probe ep#1 {peer}"]
+            out.append(Case(f"stalled-peer-{tr}-{off}#{n}", "net", ops, ["stalled-peer"]))
+            n += 1
     for _ in range(120 if tier == "quick" else 1500):
         t = rng.choice(["PULL", "PULL", "DEALER", "REP", "XPUB", "PUSH"])
         peer = netgen.PEER[t]
         ops = [f"sock 1 {t}"]
-        bound, unbound, neps, raws = set(), set(), 0, []
+        bound, unbound, neps, raws, stalled = set(), set(), 0, [], 0
         for _ in range(rng.randint(5, 12)):
             r = rng.random()
             if r < 0.3:
@@ -71,8 +82,13 @@ def cases(tier, rng):
                 unbound.add(e)
             elif r < 0.68:
                 ops.append(rng.choice(["unbind 1 unknown"] + [f"unbind 1 ep#{e}" for e in unbound]))
-            elif r < 0.85 and neps:
+            elif r < 0.82 and neps:
                 ops.append(f"probe ep#{rng.randrange(neps)} {peer}")
+            elif r < 0.86 and bound and stalled < 2:
+                stalled += 1
+                e = rng.choice(sorted(bound))
+                ops += [f"rawconn {7 + stalled} ep#{e}", f"rawhs {7 + stalled} {peer} {rng.choice([0, 5, 64, 66])}",
+                        f"rawwait {7 + stalled} greeting"]
             elif bound and len(raws) < 3:
                 c = len(raws) + 1
                 e = rng.choice(sorted(bound))
